@@ -14,6 +14,13 @@ if args[:1] == ['-j']:
 names = sorted(d for d in os.listdir(os.path.join(ROOT, 'seeded')) if os.path.exists(os.path.join(ROOT, 'seeded', d, 'patch.diff')))
 if args:
     names = [n for n in names if n in args or n.split('-')[0] in args]
+# one instance at a time: the slots (worktrees, target directories) are shared by name
+import fcntl
+_lock = open('/tmp/verif-reeval.lock', 'w')
+try:
+    fcntl.flock(_lock, fcntl.LOCK_EX | fcntl.LOCK_NB)
+except OSError:
+    print('another reeval_seeded.py is running (lock /tmp/verif-reeval.lock)'); sys.exit(3)
 snap = '/tmp/verif-harness-snap-reeval'
 subprocess.run(['rsync', '-a', '--delete', '--exclude', 'target', '--exclude', 'fuzz/target', '/verif/harness/', snap + '/'], check=True)
 rev = subprocess.run(['git', '-C', ROOT, 'rev-parse', '--short', 'HEAD'], capture_output=True, text=True).stdout.strip()
